@@ -95,9 +95,14 @@ func runCheck(prop, tier string) (code int) {
 	}
 	rp.Extra["packages"] = len(p.All)
 	rp.Extra["source_functions"] = len(p.SrcFuncs(wantPkgs...))
+	// canary: one negative control per property runs (in its own process, in
+	// parallel) on every invocation, so a checker that has gone blind is noticed
+	// even in the quick tier
+	canaryCh := startCanary(prop)
 	fn(p, rp)
 	if tier == "thorough" {
 		runControls(prop, rp)
 	}
+	finishCanary(prop, rp, canaryCh)
 	return rp.Finish()
 }
